@@ -10,7 +10,7 @@ fn st(op: Op) -> Stmt { Stmt { guard: None, op } }
 fn sg(g: u8, op: Op) -> Stmt { Stmt { guard: Some(g), op } }
 fn cfg(prop: Prop, depth: usize) -> HistCfg {
   HistCfg { prop, max_roots: 2, bottom_up: true, bu_then: true, bu_pre: true, bu_over_report: true, bu_twice: true, bu_split: false, keep_session: true, set_fail: false, crashes: 2, depth,
-    state_cap: 0, probe: prop == Prop::C03, scope_in_key: true, wall_cap: 60.0, collect_digests: false, find_path_hash: None, stamp_fail: false }
+    state_cap: 0, probe: prop == Prop::C03, scope_in_key: true, wall_cap: 60.0, collect_digests: false, find_path_hash: None, stamp_fail: false, stage1: 0, decl_direct: false }
 }
 fn td(roots: &[u8]) -> PEvent { PEvent::plain(Event::TopDown(roots.to_vec())) }
 fn set(r: u8, v: Option<u8>) -> PEvent { PEvent::plain(Event::Set(r, v)) }
